@@ -214,7 +214,9 @@ func sequence(run *ev.Run, unit int64, r *rand.Rand, dir string) {
 		run.Distinct("nontrivial", fmt.Sprintf("%s/%s/%s/%s/%s", expect, class, stored, malformed, e.rn.Store.Kind))
 		detail := map[string]any{"trace": trace, "body": string(b), "status": rec.Code, "content_type": rec.Header().Get("Content-Type"), "resp_body": rec.Body.String(), "expect": expect, "class": class, "store": e.rn.Store.Kind}
 		wantCode, _ := strconv.Atoi(expect[:3])
-		key := func(k string) string { return fmt.Sprintf("%s;expect=%s;got=%d;stored=%s", k, expect, rec.Code, stored) }
+		key := func(k string) string {
+			return fmt.Sprintf("%s;expect=%s;got=%d;stored=%s", k, expect, rec.Code, stored)
+		}
 		if judgeStatus && rec.Code != wantCode {
 			run.Violate(key("wrong_status"), fmt.Sprintf("expected %s for class %q, endpoint answered %d", expect, class, rec.Code), unit, detail)
 		}
